@@ -246,7 +246,18 @@ var Markers = []Marker{
 	{"zq desc); drop 1", true}, {"zq ASC;x", true}, {"zq asc desc", true}, {" desc", true}, {"zq  desc", true},
 	{"desc", false}, {"zq desc ", true}, {"zq asc ", true}, {"zq asc", true}, {"zq DESC", true}, {"zq);-- desc", true},
 	{"zq desc--", true}, {"zq\tdesc", true},
+	// FirstUniMarker..: a valid prefix that contains NON-ASCII letters / digits, then a forbidden
+	// character, then a tail (and mirror shapes): an identifier check that treats the bytes
+	// before and after the first multi-byte rune differently must still reject these
+	{"zq\u00e9(1", true}, {"zq\u00df;2", true}, {"zq\u044f'3", true}, {"zq\u4e2d 4", true}, {"zq\u0663)5", true},
+	{"zq\u00e9\"6", true}, {"zq\u00e9,7", true}, {"zq\u00e9.8", true}, {"zq\u00e9\\9", true}, {"zq\u00e9/*a", true},
+	{"zq\u00e9=b", true}, {"zq\u00e9%c", true}, {"zq\u00e9$d", true}, {"zq\u00e9\x00e", true}, {"zq\u00e9\nf", true},
+	{"zq\u00e9\uff1bg", true}, {"zq\u00e9\u00a0h", true}, {"zq\u00e9\u2167i", true}, {"zq(\u00e9j", true},
+	{"zq\u00e9(a int); drop table x; --", true}, {"zq\u00e9\u00df\u044f\u4e2d\u0663k", false},
 }
+
+// FirstUniMarker is the position of the first marker with a non-ASCII prefix.
+const FirstUniMarker = 31
 
 // FirstIdxMarker is the position of the first index-entry marker in Markers.
 const FirstIdxMarker = 18
